@@ -9,7 +9,7 @@ from typing import Dict, List, Optional, Set
 from ..absint import Interp, subst
 from ..model import AnalysisError, dotted, norm, walk_no_nested
 from ..report import rule
-from ..util import allargs, argv, comp_struct, is_const, is_name, key, kw, real_params, strip_pre
+from ..util import allargs, argv, comp_struct, is_const, is_name, key, kw, loops_as_comps, real_params, strip_pre
 
 RT = "client_generators.result_types:ResultTypesGenerator."
 
@@ -98,6 +98,37 @@ def c08_r6(ctx):
                   f"{[x.text()[:80] for x in o]}", fi.loc(), okmsg=f"[{label}] -> ParsingError")
 
 
+def scalar_names_to_import(pi) -> Optional[List[str]]:
+    """the attributes ScalarData.__post_init__ puts into names_to_import, each under its own truthiness guard - whether written as
+    a comprehension over a literal tuple, a loop, or one guarded append per attribute; None when the construction is not one of these"""
+    vals = [strip_pre(st.value) for st in ast.walk(pi.node) if (isinstance(st, ast.Assign) and any(norm(t) == "self.names_to_import" for t in st.targets)) or
+            (isinstance(st, ast.AnnAssign) and st.value is not None and norm(st.target) == "self.names_to_import")]
+    if len(vals) != 1:
+        return None
+    v = vals[0]
+    if isinstance(v, (ast.List, ast.Tuple)) and not v.elts:
+        comps = loops_as_comps(pi.node, "self.names_to_import")
+        if len(comps) == 1:
+            v = comps[0]
+        elif not comps:
+            got = []
+            for st in pi.node.body:
+                if isinstance(st, ast.If) and len(st.body) == 1 and not st.orelse and isinstance(st.body[0], ast.Expr) and isinstance(st.body[0].value, ast.Call) \
+                        and norm(st.body[0].value.func) == "self.names_to_import.append" and len(st.body[0].value.args) == 1:
+                    if norm(st.test) != norm(st.body[0].value.args[0]):
+                        return None
+                    got.append(str(norm(st.test)))
+                elif any(isinstance(c, ast.Call) and "self.names_to_import" in norm(c.func) for c in ast.walk(st)):
+                    return None
+            return sorted(got)
+        else:
+            return None
+    cs = comp_struct(v)
+    if cs is None or cs[0] != "$0" or len(cs[1]) != 1 or [str(c) for c in cs[1][0][1]] != ["$0"]:
+        return None
+    return sorted(str(norm(e)) for e in getattr(strip_pre(v.generators[0].iter), "elts", []))
+
+
 @rule("C07.R8", "ScalarData: object names are the last dotted component; parse / serialize names exist iff configured; every configured dotted name is imported from its module",
       min_instances=11, also=["C04", "C05", "C06", "C03"])
 def c07_r8(ctx):
@@ -128,10 +159,12 @@ def c07_r8(ctx):
             outs = it_.run()
             vals = []
             for x in outs:
+                mine = []
                 for e in x.effects:
                     e = strip_pre(e)
                     if len(allargs(e)) == 3 and is_const(allargs(e)[1], attr):
-                        vals.append(norm(strip_pre(it_._simp(allargs(e)[2], x.env))))
+                        mine.append(norm(strip_pre(it_._simp(allargs(e)[2], x.env))))
+                vals += mine[-1:]       # the value the attribute ends up with on this path (`x = None; if c: x = f()`)
             want = [f"self._get_object_name(self.{src})", f"self._get_object_name(name=self.{src})"] if configured else ["None"]
             ctx.check(bool(vals) and all(v in want for v in vals), key(pi, f"{attr} configured={configured}"),
                       f"{attr} with `{src}` {'configured' if configured else 'absent'} is {vals}, expected {want[0]}: "
@@ -142,11 +175,7 @@ def c07_r8(ctx):
     ctx.check(bool(tn) and all(v in ("self._get_object_name(self.type_)", "self._get_object_name(name=self.type_)") for v in tn), key(pi, "type_name"), f"type_name is {tn}", pi.loc(), okmsg="type_name: object name of type_")
     nti = [strip_pre(allargs(strip_pre(e))[2]) for x in Interp(pi, lambda e: None, is_effect=lambda c: is_name(c.func, "<setattr>")).run() for e in x.effects
            if len(allargs(strip_pre(e))) == 3 and is_const(allargs(strip_pre(e))[1], "names_to_import")]
-    good = bool(nti)
-    for v in nti:
-        cs = comp_struct(v)
-        good = good and cs is not None and cs[0] == "$0" and len(cs[1]) == 1 and [str(c) for c in cs[1][0][1]] == ["$0"] and \
-            sorted(norm(e) for e in getattr(strip_pre(v.generators[0].iter), "elts", [])) == ["self.parse", "self.serialize", "self.type_"]
+    good = scalar_names_to_import(pi) == ["self.parse", "self.serialize", "self.type_"]
     ctx.check(good, key(pi, "names_to_import"), f"names_to_import is {[norm(v)[:100] for v in nti]}: every configured one of type / serialize / parse must be imported", pi.loc(),
               okmsg="names_to_import = the configured ones of type_, serialize, parse")
     # imports
@@ -1738,6 +1767,31 @@ def c15_r18(ctx):
                 a_conf = argv(call, 1, "config_dict")
                 ok = a_schema is not None and norm(a_schema) == "schema" and a_conf is not None and str(norm(a_conf)) in ("config_dict or {}", "config_dict if config_dict else {}", "config_dict if config_dict is not None else {}", "config_dict or dict()") \
                     and len(call.args) + len(call.keywords) == 2
+        if not ok:
+            # the same list built through locals (`plugins = []; for t in ...: cfg = ...; plugins.append(t(...)); self.plugins = plugins`): read the paths
+            ITER = ("plugins_types or []", "plugins_types or ()", "plugins_types if plugins_types else []", "plugins_types if plugins_types is not None else []")
+            CONF = ("config_dict or {}", "config_dict if config_dict else {}", "config_dict if config_dict is not None else {}", "config_dict or dict()")
+            effp = lambda c: isinstance(c.func, ast.Attribute) and c.func.attr in ("append", "extend", "insert", "remove", "pop", "reverse", "sort")
+            outs = [o for o in Interp(init, lambda e: None, is_effect=effp).run() if o.kind in ("return", "fallthrough")]
+            stored = [st.value for st in ast.walk(init.node) if (isinstance(st, ast.Assign) and any(norm(t) == "self.plugins" for t in st.targets)) or
+                      (isinstance(st, ast.AnnAssign) and st.value is not None and norm(st.target) == "self.plugins")]
+            loops = [n_ for n_ in ast.walk(init.node) if isinstance(n_, ast.For)]
+            ok = bool(outs) and len(stored) == 1 and isinstance(stored[0], ast.Name) and len(loops) == 1 and str(norm(loops[0].iter)) in ITER and \
+                not any(isinstance(n_, (ast.If, ast.Continue, ast.Break, ast.Try)) for n_ in ast.walk(loops[0]))
+            lst = stored[0].id if ok else ""
+            for o in outs if ok else []:
+                effs = [strip_pre(subst(strip_pre(e), o.env, deep=True)) for e in o.effects]
+                once = any("loop body once" in t for t in o.trace)
+                if not once:
+                    ok = ok and not effs
+                    continue
+                ok = ok and len(effs) == 1 and isinstance(effs[0], ast.Call) and norm(effs[0].func) == f"{lst}.append" and len(effs[0].args) == 1
+                c2 = strip_pre(effs[0].args[0]) if ok else None
+                ok = ok and isinstance(c2, ast.Call) and str(norm(c2.func)) in tuple(f"<elem>({i})" for i in ITER) and len(c2.args) + len(c2.keywords) == 2
+                if ok:
+                    a_s, a_c = argv(c2, 0, "schema"), argv(c2, 1, "config_dict")
+                    ok = a_s is not None and a_c is not None and norm(a_s) == "schema" and str(norm(a_c)) in CONF
+                shown = str([norm(e)[:160] for e in effs])
         good = good and ok
     ctx.check(good, key(init, "one plugin per class"), f"self.plugins must be [cls(schema=schema, config_dict=config_dict or {{}}) for cls in plugins_types or []] - a list, in configuration order, nothing filtered: {shown[:200]}",
               init.loc(), okmsg="self.plugins = one instance per configured class, in order, built from (schema, config_dict or {})")
